@@ -81,6 +81,63 @@ fn main() {
                     Ok(Ok(s)) => { writeln!(w, "OK\t{}", s).ok(); }
                 }
             }
+            "X" => {
+                // execute the line on a machine in a fixed non-trivial state; report state + digest
+                let r = std::panic::catch_unwind(|| {
+                    let (pctx, _out, _, _) = assemble("hlt", false).map_err(|e| e)?;
+                    let PreprocessorContext { label_map, fn_map, .. } = pctx;
+                    let mut ictx = InterpreterContext { fn_map, label_map, call_stack: vec![3] };
+                    let mut vm = VM::new();
+                    for (i, b) in vm.mem.iter_mut().enumerate() {
+                        *b = (i as u8).wrapping_mul(7).wrapping_add(3);
+                    }
+                    vm.arch.ax = 0x1234; vm.arch.bx = 0x0100; vm.arch.cx = 0x0003; vm.arch.dx = 0x0005;
+                    vm.arch.sp = 0x0200; vm.arch.bp = 0x0300; vm.arch.si = 0x0400; vm.arch.di = 0x0500;
+                    vm.arch.ds = 0x0010; vm.arch.es = 0x0020; vm.arch.ss = 0x0030; vm.arch.flag = 0xF001;
+                    let mut st = String::new();
+                    let mut rounds = 0;
+                    loop {
+                        match Interpreter::new().parse(1, &mut vm, &mut ictx, arg) {
+                            Ok(s) => {
+                                st = format!("{:?}", s);
+                                rounds += 1;
+                                if st != "REPEAT" || rounds > 8 { break; }
+                            }
+                            Err(e) => return Err(short(format!("{}", e))),
+                        }
+                    }
+                    let mut h: u64 = 0xcbf29ce484222325;
+                    for b in vm.mem.iter() { h = (h ^ *b as u64).wrapping_mul(0x100000001b3); }
+                    let a = &vm.arch;
+                    Ok(format!("{} {:x} {:x} {:x} {:x} {:x} {:x} {:x} {:x} {:x} {:x} {:x} {:x} {:x} {:x} {:x}", st, a.flag, a.ax, a.bx, a.cx, a.dx, a.sp, a.bp, a.si, a.di, a.ip, a.cs, a.ds, a.ss, a.es, h))
+                });
+                match r {
+                    Err(_) => { writeln!(w, "PANIC").ok(); }
+                    Ok(Err(e)) => { writeln!(w, "ERR\t{}", e).ok(); }
+                    Ok(Ok(s)) => { writeln!(w, "OK\t{}", s).ok(); }
+                }
+            }
+            "XD" => {
+                // load a data line at a fixed counter / segment and report counter + digest
+                let r = std::panic::catch_unwind(|| {
+                    let mut vm = VM::new();
+                    vm.arch.ds = 0x0010;
+                    let mut ctr = 5usize;
+                    match DataParser::new().parse(&mut vm, &mut ctr, arg) {
+                        Ok(_) => {
+                            let mut h: u64 = 0xcbf29ce484222325;
+                            for b in vm.mem.iter() { h = (h ^ *b as u64).wrapping_mul(0x100000001b3); }
+                            Ok(format!("{} {:x} {:x}", ctr, vm.arch.ds, h))
+                        }
+                        Err(e) => Err(short(format!("{}", e))),
+                    }
+                });
+                match r {
+                    Err(_) => { writeln!(w, "PANIC").ok(); }
+                    Ok(Err(e)) => { writeln!(w, "ERR\t{}", e).ok(); }
+                    Ok(Ok(s)) => { writeln!(w, "OK\t{}", s).ok(); }
+                }
+            }
             "D" => {
                 let r = std::panic::catch_unwind(|| {
                     let mut vm = VM::new();
